@@ -1459,6 +1459,7 @@ package stun
 //@ define Registered(c, id, t) = haskey(c.t, id) && c.t[id] == t
 //@ define LastWriteErr() = gmap(wr_errt)[ghost(wr_n) - 1] != 0
 
+//@ define Init(c) = c != nil && c.c != nil && c.a != nil && c.close != nil
 //@ func (*Client).Start
 //@   safety C10 C11 C15
 //@   props C10 C15
@@ -1471,9 +1472,9 @@ package stun
 //@   ensures c != nil && c.c != nil && c.a != nil && c.close != nil && old(c.closed) ==> result == ErrClientClosed && Writes(0) && AgentOps(0) && SameClientTable(c)
 // indication: one write of the message, nothing registered
 //@   props C10
-//@   ensures result != ErrClientNotInitialized && c != nil && !old(c.closed) && handler == nil ==> Writes(1) && AgentOps(0) && SameClientTable(c) && Wrote(old(ghost(wr_n)), msg.Raw)
+//@   ensures Init(c) && !old(c.closed) && handler == nil ==> Writes(1) && AgentOps(0) && SameClientTable(c) && Wrote(old(ghost(wr_n)), msg.Raw)
 // transaction with an id already in flight: refused, nothing written, the running transaction untouched
-//@   ensures result != ErrClientNotInitialized && c != nil && !old(c.closed) && handler != nil && old(haskey(c.t, msg.TransactionID)) ==> result == ErrTransactionExists && Writes(0) && AgentOps(0) && SameClientTable(c)
+//@   ensures Init(c) && !old(c.closed) && handler != nil && old(haskey(c.t, msg.TransactionID)) ==> result == ErrTransactionExists && Writes(0) && AgentOps(0) && SameClientTable(c)
 // new transaction: registered with a private snapshot of the bytes and of the RTO, agent started with start + 1*rto, one write
 //@   props C10 C11
 //@   ensures result == nil && handler != nil && c != nil ==> Registered(c, msg.TransactionID, c.t[msg.TransactionID]) && TableExcept(c, msg.TransactionID)
@@ -1529,16 +1530,74 @@ package stun
 // handlers can reach, but it is assumed not to re-seat the client's connection/agent nor the reader's buffer.
 //@ func (*Client).readUntilClosed->ClientAgent.Process(a, m)
 //@   requires m != nil
-//@   assigns everything
+//@   assigns everything, gmap(held), ghost(now_last), ghost(wr_n), gmapa(wr_data), gmap(wr_len), gmap(wr_errt), gmap(wr_errv), ghost(ag_n), gmap(ag_op), gmapa(ag_id), gmap(ag_dl), gmap(ag_errt), gmap(ag_errv), ghost(ev_n), gmapa(ev_tid), gmap(ev_errt), gmap(ev_errv), gmap(ev_msg), gmap(ev_h)
 //@   allocates
 //@   ensures c.c == old(c.c) && c.a == old(c.a) && region(m.Raw) == old(region(m.Raw)) && cap(m.Raw) == old(cap(m.Raw)) && off(m.Raw) == old(off(m.Raw))
 //@ func (*Client).readUntilClosed
 //@   safety C12 C15
 //@   props C12
 //@   requires c != nil && c.c != nil && c.a != nil
-//@   assigns everything
+//@   assigns everything, ghost(wg_dones), gmap(held), ghost(now_last), ghost(wr_n), gmapa(wr_data), gmap(wr_len), gmap(wr_errt), gmap(wr_errv), ghost(ag_n), gmap(ag_op), gmapa(ag_id), gmap(ag_dl), gmap(ag_errt), gmap(ag_errv), ghost(ev_n), gmapa(ev_tid), gmap(ev_errt), gmap(ev_errv), gmap(ev_msg), gmap(ev_h)
 //@   allocates
 //@   ensures ghost(wg_dones) == old(ghost(wg_dones)) + 1
 //@   loop 0
-//@     assigns everything
+//@     assigns everything, gmap(held), ghost(now_last), ghost(wr_n), gmapa(wr_data), gmap(wr_len), gmap(wr_errt), gmap(wr_errv), ghost(ag_n), gmap(ag_op), gmapa(ag_id), gmap(ag_dl), gmap(ag_errt), gmap(ag_errv), ghost(ev_n), gmapa(ev_tid), gmap(ev_errt), gmap(ev_errv), gmap(ev_msg), gmap(ev_h)
 //@     invariant c.c != nil && c.a != nil && m != nil && fresh(m) && cap(m.Raw) >= 1024 && len(m.Raw) <= cap(m.Raw) && region(m.Raw) != 0 && ghost(wg_dones) == old(ghost(wg_dones))
+
+// ---- Close (C15). Ghost counters: coll_closes, agent_closes, conn_closes, wg_waits; gmap(chclosed)[ch] = 1 once ch is closed.
+//@ func Collector.Close(a)
+//@   assigns ghost(coll_closes)
+//@   allocates
+//@   ensures ghost(coll_closes) == old(ghost(coll_closes)) + 1
+//@ func Connection.Close(cn)
+//@   assigns ghost(conn_closes)
+//@   allocates
+//@   ensures ghost(conn_closes) == old(ghost(conn_closes)) + 1
+// the agent's Close runs the handlers of the remaining transactions (through handleAgentCallback): it may change whatever
+// they can reach, but not the client's configuration, its channels, nor the other collaborators' counters
+//@ func (*Client).Close->ClientAgent.Close(a)
+//@   assigns everything, ghost(agent_closes), ghost(now_last), ghost(wr_n), gmapa(wr_data), gmap(wr_len), gmap(wr_errt), gmap(wr_errv), ghost(ag_n), gmap(ag_op), gmapa(ag_id), gmap(ag_dl), gmap(ag_errt), gmap(ag_errv), ghost(ev_n), gmapa(ev_tid), gmap(ev_errt), gmap(ev_errv), gmap(ev_msg), gmap(ev_h)
+//@   allocates
+//@   ensures c.c == old(c.c) && c.closeConn == old(c.closeConn) && c.close == old(c.close) && c.closed == old(c.closed) && c.collector == old(c.collector)
+//@   ensures gmap(chclosed)[c.close] == old(gmap(chclosed)[c.close]) && gmap(held)[region(c)] == old(gmap(held)[region(c)])
+//@   ensures ghost(coll_closes) == old(ghost(coll_closes)) && ghost(conn_closes) == old(ghost(conn_closes)) && ghost(wg_waits) == old(ghost(wg_waits))
+//@   ensures ghost(agent_closes) == old(ghost(agent_closes)) + 1
+// waiting for the reader goroutine only makes sense after it has been told to stop
+//@ func (*Client).Close->(*sync.WaitGroup).Wait(wg)
+//@   requires gmap(chclosed)[c.close] == 1
+//@   assigns ghost(wg_waits)
+//@   ensures ghost(wg_waits) == old(ghost(wg_waits)) + 1
+
+//@ define Closes(coll, agent, conn, waits) = ghost(coll_closes) == old(ghost(coll_closes)) + coll && ghost(agent_closes) == old(ghost(agent_closes)) + agent
+//@   | && ghost(conn_closes) == old(ghost(conn_closes)) + conn && ghost(wg_waits) == old(ghost(wg_waits)) + waits
+//@ func (*Client).Close
+//@   safety C15 C10
+//@   props C15
+//@   requires c == nil || (ClientReady(c) && (c.closed || gmap(chclosed)[c.close] == 0))
+//@   assigns everything, ghost(agent_closes), ghost(coll_closes), ghost(conn_closes), ghost(wg_waits), gmap(chclosed), gmap(held), ghost(now_last), ghost(wr_n), gmapa(wr_data), gmap(wr_len), gmap(wr_errt), gmap(wr_errv), ghost(ag_n), gmap(ag_op), gmapa(ag_id), gmap(ag_dl), gmap(ag_errt), gmap(ag_errv), ghost(ev_n), gmapa(ev_tid), gmap(ev_errt), gmap(ev_errv), gmap(ev_msg), gmap(ev_h)
+//@   allocates
+// not initialised, or closed already: nothing is closed again
+//@   ensures c == nil || old(c.c) == nil || old(c.a) == nil || old(c.close) == nil ==> result == ErrClientNotInitialized && Closes(0, 0, 0, 0)
+//@   ensures c != nil && old(c.c) != nil && old(c.a) != nil && old(c.close) != nil && old(c.closed) ==> result == ErrClientClosed && Closes(0, 0, 0, 0)
+// first Close: flag set, collector closed once; then (if that worked) agent closed once, connection closed once iff owned,
+// reader told to stop and waited for - on every such path
+//@   ensures c != nil && old(c.c) != nil && old(c.a) != nil && old(c.close) != nil && !old(c.closed) ==> c.closed && ghost(coll_closes) == old(ghost(coll_closes)) + 1 && gmap(held)[region(c)] == 0
+//@   ensures c != nil && result != ErrClientNotInitialized && !old(c.closed) && ghost(agent_closes) != old(ghost(agent_closes)) ==> Closes(1, 1, ite(old(c.closeConn), 1, 0), 1) && gmap(chclosed)[c.close] == 1
+//@   ensures c != nil && result == nil ==> Closes(1, 1, ite(old(c.closeConn), 1, 0), 1) && gmap(chclosed)[c.close] == 1 && c.closed
+//@   ensures result != nil && result != ErrClientNotInitialized && result != ErrClientClosed && ghost(agent_closes) != old(ghost(agent_closes)) ==> errtag(result) == typeid("CloseErr")
+
+//@ func (*Client).Indicate
+//@   safety C10 C15
+//@   props C15
+//@   requires m != nil && (c == nil || ClientReady(c))
+//@   assigns mem(c.t), gmap(held)[region(c)], ghost(now_last), ghost(wr_n), gmapa(wr_data), gmap(wr_len), gmap(wr_errt), gmap(wr_errv), ghost(ag_n), gmap(ag_op), gmapa(ag_id), gmap(ag_dl), gmap(ag_errt), gmap(ag_errv)
+//@   allocates
+//@   ensures NoEvent() && AgentOps(0)
+//@   ensures c != nil && c.c != nil && c.a != nil && c.close != nil && old(c.closed) ==> result == ErrClientClosed && Writes(0) && SameClientTable(c)
+
+//@ func (*Client).SetRTO
+//@   safety C11
+//@   props C11
+//@   requires c != nil
+//@   assigns c.rto
+//@   ensures c.rto == rto
